@@ -341,10 +341,11 @@ int gx_compare(const gx_msg *t, htp_tx_t *tx, const hx_txrec *rec, hx_buf *err, 
 void gx_deflate(hx_buf *out, const uint8_t *data, size_t n, int mode) {
     z_stream z; memset(&z, 0, sizeof z);
     /* mode 0 gzip, 1 zlib, 2 raw; 3..6 gzip with header fields: 3 FNAME, 4 FEXTRA, 5 FCOMMENT + FHCRC, 6 all of them */
+    /* mode 7: gzip, Huffman coding only (no string matching): a poorly compressing outer layer, used to build bombs whose wire size is large */
     int wb = (mode == 0 || mode >= 3) ? 15 + 16 : mode == 1 ? 15 : -15;
-    if (deflateInit2(&z, 9, Z_DEFLATED, wb, 8, Z_DEFAULT_STRATEGY) != Z_OK) abort();
+    if (deflateInit2(&z, 9, Z_DEFLATED, wb, 8, mode == 7 ? Z_HUFFMAN_ONLY : Z_DEFAULT_STRATEGY) != Z_OK) abort();
     gz_header gh; memset(&gh, 0, sizeof gh);
-    if (mode >= 3) {
+    if (mode >= 3 && mode <= 6) {
         if (mode == 3 || mode == 6) gh.name = (Bytef *) "file.txt";
         if (mode == 4 || mode == 6) { gh.extra = (Bytef *) "EXTRAFIELD"; gh.extra_len = 10; }
         if (mode == 5 || mode == 6) { gh.comment = (Bytef *) "a comment"; gh.hcrc = 1; }
